@@ -106,3 +106,16 @@ PROPS['C12'] = dict(
     stages=[dict(name='sched', bin='udpsched', shards=shards(8, 14), par=14, timeout=2400, crash_is_violation=True, crash_key='udp:crash')],
     need_counters=['quiescent_points_inspected', 'rebind_and_leak_probes', 'dfs_schedules', 'schedules_with_close_tasks'],
 )
+
+PROPS['C10'] = dict(
+    level='exploration', builds={'rdl_race': dict(pkg='./cmd/rdl', overlay='shim', race=True)},
+    stages=[dict(name='scripts@timer%d' % m, bin='rdl_race', shards=shards(2, 6), par=4, env={'GODEBUG': 'asynctimerchan=%d' % m},
+                 crash_is_violation=True, crash_key='rdl:crash', timeout=1800) for m in (1, 0)],
+    need_counters=['reads_timeout', 'reads_data', 'parked_reads', 'scripts_vnet', 'scripts_udp', 'scripts_bridge', 'scripts_dpipe', 'scripts_buffer'],
+)
+PROPS['C17'] = dict(
+    level='exploration', builds={'ctxio_race': dict(pkg='./cmd/ctxio', overlay='shim', race=True)},
+    stages=[dict(name='ctxio@timer%d' % m, bin='ctxio_race', shards=shards(2, 6), par=4, env={'GODEBUG': 'asynctimerchan=%d' % m},
+                 crash_is_violation=True, crash_key='ctxio:crash', timeout=1800, replay='rerun') for m in (1, 0)],
+    need_counters=['reads_cancelled', 'writes_cancelled', 'reads_probe', 'writes_probe', 'stream_bytes', 'datagrams'],
+)
